@@ -18,7 +18,7 @@ META = {
     "(int/float/bool/str/None/nan values, duplicates, gaps, wrong order) and then codes are these values. "
     "E1 (symbolic execution of Grid.to_jax with symbolic start<stop): exactly n values, first == start, last == stop, strictly "
     "increasing, equally spaced on the linear resp. logarithmic scale.",
-    "bounds": "CrossHair: per-condition timeout 90 s, 0-3 category fields; materialisation: n_points 1..9 (equal spacing exactly "
+    "bounds": "CrossHair: per-condition timeout 90 s, 0-3 category fields (4 fields over None/str/0/1 for mixed duplicated kinds); materialisation: n_points 1..9 (equal spacing exactly "
     "for n-1 a power of two, within 1e-9*(stop-start) given |start| <= 2^20 (stop-start) otherwise, because jnp.linspace's i/(n-1) constants are rounded floats); "
     "log grids n in {1,2,3,5,9}",
     "outside": "float resolution (stop = start + 1ulp), overflow near 1e308, exp(log(stop)) != stop in floats; n_points > 9",
